@@ -103,6 +103,9 @@ def ops(D):
     add("view_assign_view", "Sub& v, CSub const& w", "v = w;", {0: "view", 1: "view"}, "view")
     add("view_assign_array", "Sub& v, Arr const& b", "v = b;", {0: "view", 1: "live"}, "view")
     add("view_move_assign", "Sub& v, Sub& w", "v = std::move(w);", {0: "view", 1: "view"}, "view")
+    add("view_assign_constptr_view", "Sub& v, multi::subarray<Tracked, DD, Tracked const*> const& w", "v = w;", {0: "view", 1: "view"}, "view")
+    add("rvalue_view_assign_view", "Sub& v, CSub const& w", "std::move(v) = w;", {0: "view", 1: "view"}, "view")
+    add("rvalue_view_assign_constptr_view", "Sub& v, multi::subarray<Tracked, DD, Tracked const*> const& w", "std::move(v) = w;", {0: "view", 1: "view"}, "view")
     add("view_swap", "Sub& v, Sub& w", "swap(std::move(v), std::move(w));", {0: "view", 1: "view"}, "view")
     add("view_elements_assign", "Sub& v, CSub const& w", "v.elements() = w.elements();", {0: "view", 1: "view"}, "view")
     add("array_paren_assign", "Arr& a, Arr const& b", "a() = b();", {0: "live", 1: "live"}, "view")
@@ -207,7 +210,7 @@ class Module:
             else:
                 ty = re.match(r"^(?:typename )?(\w+)", p).group(1)
                 if ty == "multi":
-                    ty = "OtherArr"
+                    ty = "OtherArr" if "multi::array<" in p else "Sub"
             if ty == "OtherArr":
                 offs = None
                 for n, o in self.offs.items():
@@ -248,14 +251,14 @@ def zero_counts(pc, sim):
     return z, nz, eq
 
 
-def analyse_op(module, opname):
+def analyse_op(module, opname, keep_assert_paths=False):
     """returns list of dict(outcome, findings, log, throw) one per trace"""
     op = module.ops[opname]
     res = []
     outs = module.traces(opname)
     numel = None
     for kind, rv, path in outs:
-        if kind == "terminate" and any(e[0] == "terminate" and e[1] == "__assert_fail" for e in path.events):
+        if kind == "terminate" and any(e[0] == "terminate" and e[1] == "__assert_fail" for e in path.events) and not keep_assert_paths:
             continue
         sim = typestate.Sim(module.objspecs(op), numel, module.local_offs())
         z, nz, eq = zero_counts(path.pc, sim)
